@@ -28,6 +28,20 @@ def work_dir():
 def cleanup():
     if _work is not None:
         shutil.rmtree(_work, ignore_errors=True)
+    # scratch directories of worker processes that were terminated with their pool (no atexit): w<pid>-... whose pid is gone
+    base = os.environ.get('VERIF_SCRATCH') or os.path.join(VERIF, '.work')
+    try:
+        for d in os.listdir(base):
+            if not d.startswith('w') or '-' not in d:
+                continue
+            try:
+                pid = int(d[1:].split('-', 1)[0])
+            except ValueError:
+                continue
+            if not os.path.exists('/proc/%d' % pid):
+                shutil.rmtree(os.path.join(base, d), ignore_errors=True)
+    except OSError:
+        pass
 
 
 def sub_dir(name):
